@@ -601,6 +601,10 @@ def c2s(ctx, nconf):
             continue
         o = obs[i - 1]
         if clause.startswith('harness_'):
+            # the second call of a history whose first call (the line before) is already rejected: what that call returned
+            # is not a table of previously computed values of the model - the history ends at its first violation
+            if o.get('chained') and i - 1 in rejected:
+                continue
             raise Machinery('driver error %s on %s' % (clause, json.dumps(o)[:600]))
         ctx.violation(clause, case_of(o), {'observed': o['out'], 'calls': o.get('calls')})
     for o in obs:
